@@ -106,6 +106,27 @@ type c05chan struct {
 	id    string
 	trace []string
 	hangs int // hangs reported: each costs its full budget, a few are enough
+	budgets []*vfutil.Budget
+}
+
+// budget: a deadline in reference polls, not in wall-clock time (vfutil.StartBudget);
+// the budgets of a scenario are stopped when the next one starts
+func (c *c05chan) budget(d time.Duration) *vfutil.Budget {
+	b := vfutil.StartBudget(d)
+	c.budgets = append(c.budgets, b)
+	return b
+}
+
+func (c *c05chan) after(d time.Duration) <-chan struct{} { return c.budget(d).Done() }
+
+func (c *c05chan) stopBudgets() {
+	for _, b := range c.budgets {
+		if b.Hard() {
+			vfutil.Infra("hard wall-clock limit of a budget expired")
+		}
+		b.Stop()
+	}
+	c.budgets = nil
 }
 
 func (c *c05chan) note(format string, a ...interface{}) {
@@ -133,14 +154,16 @@ func c05cNew(bk, dir string, logSize, maxSize int64) Channel {
 
 // waitRight waits until the channel reports `right` as the end of the range.
 func (c *c05chan) waitRight(right int64) bool {
-	dl := time.Now().Add(20 * time.Second)
-	for time.Now().Before(dl) {
+	b := vfutil.StartBudget(20 * time.Second)
+	defer b.Stop()
+	for !b.Expired() {
 		if _, r := c.ch.GetOffsetRange(c.id); r == right {
 			return true
 		}
 		time.Sleep(200 * time.Microsecond)
 	}
-	return false
+	_, r := c.ch.GetOffsetRange(c.id)
+	return r == right
 }
 
 // readExactly reads n bytes from rd within the deadline; returns what it got.
@@ -160,10 +183,20 @@ func c05cRead(rd ChannelReader, n int, deadline time.Duration) ([]byte, error, b
 		k, err := io.ReadFull(rd.IoReader(), b)
 		done <- res{b[:k], err}
 	}()
+	b := vfutil.StartBudget(deadline)
+	defer b.Stop()
 	select {
 	case x := <-done:
 		return x.b, x.err, true
-	case <-time.After(deadline):
+	case <-b.Done():
+		select {
+		case x := <-done:
+			return x.b, x.err, true
+		default:
+		}
+		if b.Hard() {
+			vfutil.Infra("hard wall-clock limit expired in a read")
+		}
 		return nil, nil, false
 	}
 }
@@ -204,9 +237,10 @@ func (c *c05chan) refsHeld() int32 {
 
 // waitRefs waits until the total of references equals want.
 func (c *c05chan) waitRefs(want int32) (int32, bool) {
-	dl := time.Now().Add(3 * time.Second)
+	b := vfutil.StartBudget(10 * time.Second)
+	defer b.Stop()
 	var got int32
-	for time.Now().Before(dl) {
+	for !b.Expired() {
 		if got = c.refsHeld(); got == want {
 			return got, true
 		}
@@ -220,6 +254,7 @@ func (c *c05chan) waitRefs(want int32) (int32, bool) {
 func (c *c05chan) scenarioFollow(dir string, logSize int64, chunkMax int, total int) {
 	r := c.r
 	c.trace = nil
+	c.stopBudgets()
 	c.salt = r.U64() % 100000
 	c.id = fmt.Sprintf("run%d", r.Intn(1000))
 	c.ch = c05cNew(c.bk, dir, logSize, 0)
@@ -275,7 +310,7 @@ func (c *c05chan) scenarioFollow(dir string, logSize int64, chunkMax int, total 
 			if werr != nil {
 				c.s.Violate("snapshot-writer-failed", werr.Error(), c.replay())
 			}
-		case <-time.After(5 * time.Second):
+		case <-c.after(5 * time.Second):
 			c.s.Violate("snapshot-writer-stuck", fmt.Sprintf("all %d announced snapshot bytes (followed by %d stream bytes on the same connection) were fed, the writer does not finish", size, preStream), c.replay())
 			wait.Close(nil)
 			w.Close()
@@ -456,6 +491,7 @@ func (c *c05chan) scenarioFollow(dir string, logSize int64, chunkMax int, total 
 func (c *c05chan) scenarioLarge(dir string) {
 	r := c.r
 	c.trace = nil
+	c.stopBudgets()
 	c.salt = r.U64() % 100000
 	c.id = "big"
 	logSize := int64(12*1024 + r.Intn(28*1024))
@@ -519,7 +555,7 @@ func (c *c05chan) scenarioLarge(dir string) {
 					} else {
 						c.checkBytes("large/peek", pos, x.b)
 					}
-				case <-time.After(5 * time.Second):
+				case <-c.after(5 * time.Second):
 					c.s.Violate("reader-stalls-behind-writer", fmt.Sprintf("large: Peek(%d) at %d (writer at %d) does not return", need, pos, right), c.replay())
 				}
 			}
@@ -617,6 +653,7 @@ func (k *c05cConsumer) run() {
 func (c *c05chan) scenarioInvalidate(dir string, kind int) {
 	r := c.r
 	c.trace = nil
+	c.stopBudgets()
 	c.salt = r.U64() % 100000
 	c.id = "inv"
 	logSize := int64(vfutil.Pick(r, []int{64, 256}))
@@ -647,7 +684,7 @@ func (c *c05chan) scenarioInvalidate(dir string, kind int) {
 		go func() { wdone <- w.Wait(wctx.Context()) }()
 		select {
 		case <-wdone:
-		case <-time.After(20 * time.Second):
+		case <-c.after(20 * time.Second):
 			c.s.Count("note_snapshot_writer_slow")
 			wctx.Close(nil)
 			return
@@ -702,9 +739,9 @@ func (c *c05chan) scenarioInvalidate(dir string, kind int) {
 	open("tail", right, false)
 	push(10 + r.Intn(50))
 	// every stream consumer reaches the tail and blocks there
-	dl := time.Now().Add(20 * time.Second)
+	dl := c.budget(20 * time.Second)
 	for _, k := range cons {
-		for k.size == 0 && int64(k.n()) < right-k.from && time.Now().Before(dl) {
+		for k.size == 0 && int64(k.n()) < right-k.from && !dl.Expired() {
 			time.Sleep(time.Millisecond)
 		}
 		if k.size == 0 && int64(k.n()) < right-k.from {
@@ -741,7 +778,7 @@ func (c *c05chan) scenarioInvalidate(dir string, kind int) {
 	}()
 	select {
 	case <-invDone:
-	case <-time.After(15 * time.Second):
+	case <-c.after(15 * time.Second):
 		c.s.Violate("invalidated-reader-hangs", fmt.Sprintf("%s with %d started readers at the tail (cache [%d,%d]): the call does not return and the readers' consumers stay blocked on IoReader()", kinds[kind], len(cons), start, right0), c.replay())
 		c.hangs++
 		c.ch = nil // wedged: leave it behind
@@ -756,8 +793,8 @@ func (c *c05chan) scenarioInvalidate(dir string, kind int) {
 	for _, k := range cons {
 		ended := false
 		var kerr error
-		dl := time.Now().Add(10 * time.Second)
-		for time.Now().Before(dl) && !ended {
+		dl := c.budget(10 * time.Second)
+		for !dl.Expired() && !ended {
 			select {
 			case kerr = <-k.done:
 				ended = true
@@ -806,6 +843,7 @@ func (c *c05chan) scenarioInvalidate(dir string, kind int) {
 func (c *c05chan) scenarioInvalidateLiveSnapshot(dir string, kind int) {
 	r := c.r
 	c.trace = nil
+	c.stopBudgets()
 	c.id = "invs"
 	c.ch = c05cNew(c.bk, dir, 256, 0)
 	defer func() {
@@ -844,8 +882,8 @@ func (c *c05chan) scenarioInvalidateLiveSnapshot(dir string, kind int) {
 	k := &c05cConsumer{name: "live snapshot", rd: rd, wait: usync.NewWaitCloser(nil), size: size, done: make(chan error, 1)}
 	rd.Start(k.wait)
 	go k.run()
-	dl := time.Now().Add(20 * time.Second)
-	for k.n() < half && time.Now().Before(dl) {
+	dl := c.budget(20 * time.Second)
+	for k.n() < half && !dl.Expired() {
 		time.Sleep(time.Millisecond)
 	}
 	if k.n() < half {
@@ -873,14 +911,14 @@ func (c *c05chan) scenarioInvalidateLiveSnapshot(dir string, kind int) {
 	}
 	select {
 	case <-invDone:
-	case <-time.After(15 * time.Second):
+	case <-c.after(15 * time.Second):
 		hang(fmt.Sprintf("%s while a consumer replays the snapshot being received: the call does not return", kinds[kind]))
 		c.ch = nil
 		return
 	}
 	select {
 	case <-k.done:
-	case <-time.After(10 * time.Second):
+	case <-c.after(10 * time.Second):
 		hang(fmt.Sprintf("%s: the consumer replaying the snapshot being received (%d of %d bytes) neither ends nor fails — blocked on IoReader()", kinds[kind], k.n(), size))
 	}
 	k.mu.Lock()
@@ -906,6 +944,7 @@ func (c *c05chan) scenarioInvalidateLiveSnapshot(dir string, kind int) {
 func (c *c05chan) scenarioSnapshotRace(dir string, iters int) {
 	r := c.r
 	c.trace = nil
+	c.stopBudgets()
 	c.id = "race"
 	c.ch = c05cNew(c.bk, dir, 256, 0)
 	defer c.ch.Close()
@@ -960,7 +999,7 @@ func (c *c05chan) scenarioSnapshotRace(dir string, iters int) {
 		go func() { wdone <- w.Wait(wctx.Context()) }()
 		select {
 		case <-wdone:
-		case <-time.After(20 * time.Second):
+		case <-c.after(20 * time.Second):
 			c.s.Count("note_snapshot_writer_slow")
 			wctx.Close(nil)
 		}
@@ -983,6 +1022,7 @@ func (c *c05chan) scenarioSnapshotRace(dir string, iters int) {
 func (c *c05chan) scenarioConcurrent(dir string, d time.Duration) {
 	r := c.r
 	c.trace = nil
+	c.stopBudgets()
 	c.salt = r.U64() % 100000
 	c.id = "conc"
 	logSize := int64(256)
@@ -1140,12 +1180,23 @@ func TestVerifC05chan(t *testing.T) {
 	limit := time.Duration(vfutil.Scale(150, 1200)) * time.Second
 	cur := &c05chan{}
 	wd := time.AfterFunc(limit, func() {
-		s.Violate("harness-watchdog", fmt.Sprintf("the harness did not finish within %v", limit), map[string]interface{}{"steps": fmt.Sprint(cur.trace)})
-		s.Close()
-		os.Exit(3)
+		// an infrastructure failure (broken tie), not a violation
+		vfutil.WatchdogExit(s, fmt.Sprintf("the harness did not finish within %v; steps: %v", limit, cur.trace))
 	})
 	defer wd.Stop()
 	r := vfutil.NewRand(vfutil.Seed() + 55)
+	// debugging aid: VERIF_C05CHAN_ONLY=<kind>:<n> runs only scenarioInvalidate(kind) n times on disk
+	if only := os.Getenv("VERIF_C05CHAN_ONLY"); only != "" {
+		var kind, n int
+		fmt.Sscanf(only, "%d:%d", &kind, &n)
+		c := &c05chan{s: s, r: r, bk: "disk"}
+		cur = c
+		for i := 0; i < n && c.hangs < 3; i++ {
+			c.scenarioInvalidate(t.TempDir(), kind)
+		}
+		c.stopBudgets()
+		return
+	}
 	for _, bk := range []string{"disk", "mem"} {
 		c := &c05chan{s: s, r: r, bk: bk}
 		cur = c
@@ -1167,5 +1218,9 @@ func TestVerifC05chan(t *testing.T) {
 			c.scenarioInvalidateLiveSnapshot(t.TempDir(), 1+i%3)
 		}
 		c.scenarioSnapshotRace(t.TempDir(), vfutil.Scale(300, 3000))
+		c.stopBudgets()
+	}
+	for _, m := range vfutil.InfraFailures() {
+		t.Errorf("C05chan harness infrastructure (no statement about the cache): %s", m)
 	}
 }
